@@ -30,8 +30,8 @@ def P(theorems, quick, thorough, components, status, rule, explanation, assumpti
 PROPS = {
     'C01': P(
         ['C01_parse_total', 'C01_lexer_terminates', 'C01_renderers_total', 'C01_to_postgres_total', 'C01_to_param_postgres_total', 'C01_no_format_error'],
-        [('corpus', 0), ('enum', 1500), ('rand', 5000), ('lex', 2500), ('big', 0), ('nearmiss', 0), ('inject', 2000), ('scale-list', 0), ('scale-giant', 0), ('scale-chain', 0), ('scale-prefix', 0), ('scale-layout', 0), ('scale-names', 0), ('scale-values', 0), ('scale-digits', 0), ('pairs', 0)],
-        [('corpus', 0), ('enum', 20000), ('rand', 60000), ('lex', 30000), ('big', 0), ('trees', 20000), ('inject', 30000), ('nearmiss', 0), ('scale-list', 0), ('scale-giant', 0), ('scale-chain', 0), ('scale-prefix', 0), ('scale-layout', 0), ('scale-names', 0), ('scale-values', 0), ('scale-digits', 0), ('pairs', 0)],
+        [('corpus', 0), ('enum', 1500), ('rand', 5000), ('lex', 2500), ('big', 0), ('nearmiss', 0), ('inject', 2000), ('scale-list', 0), ('scale-giant', 0), ('scale-chain', 0), ('scale-prefix', 0), ('scale-layout', 0), ('scale-names', 0), ('scale-values', 0), ('scale-digits', 0), ('pairs', 0), ('optrees', 0)],
+        [('corpus', 0), ('enum', 20000), ('rand', 60000), ('lex', 30000), ('big', 0), ('trees', 20000), ('inject', 30000), ('nearmiss', 0), ('scale-list', 0), ('scale-giant', 0), ('scale-chain', 0), ('scale-prefix', 0), ('scale-layout', 0), ('scale-names', 0), ('scale-values', 0), ('scale-digits', 0), ('pairs', 0), ('optrees', 0)],
         PARSE + PRINT + SQL,
         'full: parser loop total within 4n+4 steps for every token list; all five renderers and both public wrappers return on every parse result; no bad formatting verb. Wall-clock cost of fmt/encoding-json is measured (observer watchdog), not proved.',
         'token sequences exhaustively to length 3 (quick) / 4 (thorough) over a 26-symbol alphabet x {no default field, d}, random structured queries with every leaf kind, random byte strings incl. invalid UTF-8/NUL, adversarial 2k/10k-token shapes; non-trivial = accepted by Parse (all renderers then run); distinct = distinct parse trees',
@@ -66,8 +66,8 @@ PROPS = {
         ['oracle fact: ParseFloat rejects a text starting with a quote']),
     'C05': P(
         ['C05_print_parse_roundtrip', 'C05_printed_tree_parses_to_itself', 'C05_printed_text_parses_to_the_tree', 'C05_value_list'],
-        [('corpus', 0), ('trees', 8000), ('scale-list', 0), ('scale-chain', 0), ('scale-prefix', 0)],
-        [('corpus', 0), ('trees', 120000), ('enum', 5000), ('scale-list', 0), ('scale-chain', 0), ('scale-prefix', 0)],
+        [('corpus', 0), ('trees', 8000), ('scale-list', 0), ('scale-chain', 0), ('scale-prefix', 0), ('optrees', 0), ('pairs', 0)],
+        [('corpus', 0), ('trees', 120000), ('enum', 5000), ('scale-list', 0), ('scale-chain', 0), ('scale-prefix', 0), ('optrees', 0), ('pairs', 0)],
         PARSE,
         'full: for every spec tree (any depth) with parentheses wherever the table requires them (and anywhere else) the parser loop accepts exactly the expected tree, Validate accepts it, and - for text of any bytes whose printed tokens are returned unchanged by the lexer when a blank follows (LexWsG.lexes_clean: words in any script, phrases with any bytes) - Parse of the printed text returns it. The lexer step is also checked per case by the driver (generator printer = Spec.pr through the model lexer).',
         'random spec trees to depth 3 (quick) / 5 (thorough), minimal and redundant parenthesisation, three spacing styles; the driver checks generator printer = Spec.pr and implementation tree = Spec.want',
@@ -75,8 +75,8 @@ PROPS = {
         []),
     'C06': P(
         ['C06_accepted_tree_is_a_derivation'],
-        [('corpus', 0), ('enum', 1500), ('rand', 5000), ('lex', 1500), ('nearmiss', 0), ('scale-list', 0), ('scale-chain', 0), ('scale-names', 0), ('pairs', 0)],
-        [('corpus', 0), ('enum', 30000), ('rand', 80000), ('lex', 20000), ('nearmiss', 0), ('scale-list', 0), ('scale-chain', 0), ('scale-names', 0), ('pairs', 0)],
+        [('corpus', 0), ('enum', 1500), ('rand', 5000), ('lex', 1500), ('nearmiss', 0), ('scale-list', 0), ('scale-chain', 0), ('scale-names', 0), ('pairs', 0), ('optrees', 0)],
+        [('corpus', 0), ('enum', 30000), ('rand', 80000), ('lex', 20000), ('nearmiss', 0), ('scale-list', 0), ('scale-chain', 0), ('scale-names', 0), ('pairs', 0), ('optrees', 0)],
         PARSE,
         'full: every accepted token list is laid over by its tree as a derivation (Lay), for all token lists.',
         'all token sequences to length 3/4 over 26 symbols x default field, random structured and damaged queries; non-trivial = accepted',
@@ -84,8 +84,8 @@ PROPS = {
         []),
     'C07': P(
         ['C07_juxtaposition_is_and', 'C07_same_parse', 'C07_same_parse_of_text', 'C07_local_step'],
-        [('corpus', 0), ('juxt', 2000), ('scale-chain', 0), ('scale-prefix', 0)],
-        [('corpus', 0), ('juxt', 40000), ('enum', 5000), ('scale-chain', 0), ('scale-prefix', 0)],
+        [('corpus', 0), ('juxt', 2000), ('scale-chain', 0), ('scale-prefix', 0), ('optrees', 0)],
+        [('corpus', 0), ('juxt', 40000), ('enum', 5000), ('scale-chain', 0), ('scale-prefix', 0), ('optrees', 0)],
         PARSE,
         'full: for all contexts pre, post and term tokens t1 t2, `pre t1 t2 post` and `pre t1 AND t2 post` give the same result - as final state of the parser loop, as result of parse_toks (loop + Validate), and as result of Parse on query text of any bytes (tokens that lex to themselves when a blank follows).',
         'pairs (all AND written / some AND nodes juxtaposed) of printed random trees, and pairs over arbitrary token sequences with two adjacent terminals; non-trivial = pair accepted',
@@ -100,24 +100,24 @@ PROPS = {
         '', ['oracle facts: double quote, colon and the four whitespace runes are not letters or digits']),
     'C09': P(
         ['C09_keyword_case', 'C09_whitespace_same_tokens', 'C09_whitespace_same_parse', 'C09_redundant_parentheses', 'C09_redundant_parentheses_same_parse', 'C09_whitespace_same_tokens_any_bytes', 'C09_whitespace_same_parse_any_bytes', 'C09_token_independent_of_what_follows'],
-        [('corpus', 0), ('layout', 1500), ('scale-layout', 0), ('scale-chain', 0)],
-        [('corpus', 0), ('layout', 30000), ('enum', 5000), ('scale-layout', 0), ('scale-chain', 0)],
+        [('corpus', 0), ('layout', 1500), ('scale-layout', 0), ('scale-chain', 0), ('nearmiss', 0)],
+        [('corpus', 0), ('layout', 30000), ('enum', 5000), ('scale-layout', 0), ('scale-chain', 0), ('nearmiss', 0)],
         PARSE,
         'whitespace clause proved for ALL byte strings, valid UTF-8 or not (any change of the whitespace between and around tokens that removes no existing separator gives the same token stream, hence the same parse result; words ending in a dangling escape excluded = K14); keyword case: the token type of a word is invariant under ASCII letter case; redundant parentheses: two printed trees differing only in parenthesis nodes parse (parser loop + Validate) to the same tree. The general theorem rests on a context theorem for one Next(): the decoder looks at most three bytes past a token and only to find a truncated sequence not continued; whitespace and the first byte of a proper token are never continuation bytes (oracle fact: U+FFFD is neither letter nor digit). Not proved: parentheses in arbitrary accepted token sequences that are not printed trees (K15 lives there); decided by C09_check on variant pairs.',
         'variant pairs (whitespace fillings incl. tabs/newlines/none, keyword case, redundant parentheses) of random trees and of arbitrary token sequences',
         '', []),
     'C10': P(
         ['C10_parse_all_or_nothing', 'C10_returned_tree_wellformed', 'C10_to_postgres_shape', 'C10_to_param_postgres_shape'],
-        [('corpus', 0), ('enum', 1500), ('rand', 5000), ('lex', 1500), ('nearmiss', 0), ('inject', 1500), ('scale-list', 0), ('scale-giant', 0), ('scale-digits', 0), ('pairs', 0)],
-        [('corpus', 0), ('enum', 30000), ('rand', 80000), ('lex', 20000), ('inject', 20000), ('scale-list', 0), ('scale-giant', 0), ('scale-digits', 0), ('pairs', 0)],
+        [('corpus', 0), ('enum', 1500), ('rand', 5000), ('lex', 1500), ('nearmiss', 0), ('inject', 1500), ('scale-list', 0), ('scale-giant', 0), ('scale-digits', 0), ('pairs', 0), ('optrees', 0)],
+        [('corpus', 0), ('enum', 30000), ('rand', 80000), ('lex', 20000), ('inject', 20000), ('scale-list', 0), ('scale-giant', 0), ('scale-digits', 0), ('pairs', 0), ('optrees', 0)],
         PARSE + ['ToPostgres', 'ToParameterizedPostgres'],
         'full: Parse returns a tree xor an error; every returned tree passes Validate and the independent shape predicate; ToPostgres/ToParameterizedPostgres result shapes.',
         'token sequences, random and damaged queries, random bytes, hostile texts (NUL, invalid UTF-8, quotes) inside quoted values and field names; non-trivial = accepted',
         '', ['oracle fact: %v of a float64 is non-empty']),
     'C11': P(
         ['C11_default_field_scopes_bare_terms', 'C11_parse_with_default_field'],
-        [('corpus', 0), ('dfield', 4000), ('scale-names', 0)],
-        [('corpus', 0), ('dfield', 60000), ('enum', 5000), ('scale-names', 0)],
+        [('corpus', 0), ('dfield', 4000), ('scale-names', 0), ('pairs', 0)],
+        [('corpus', 0), ('dfield', 60000), ('enum', 5000), ('scale-names', 0), ('pairs', 0)],
         PARSE,
         'full: for every input string whose terms do not denote f, Parse with the default field f = Parse without it followed by scope f (same acceptance, exactly the scoped tree); scope f touches bare operands only.',
         'pairs (without / with a default field that does not occur in the query) of random trees and token sequences, field names needing quoting',
@@ -155,11 +155,11 @@ PROPS = {
         'random trees x function tables (all tracing, one operator removed, one overridden, both); non-trivial = tree rendered or correctly refused',
         '', []),
     'C16': P(
-        ['C16_next_token_lossless', 'C16_stream_is_a_segmentation', 'C16_finitely_many_tokens', 'C16_lexical_error_rejects', 'C16_peek_is_next', 'C16_eof_forever'],
-        [('lex', 8000), ('corpus', 0), ('scale-layout', 0), ('scale-values', 0)],
-        [('lex', 150000), ('corpus', 0), ('scale-layout', 0), ('scale-values', 0)],
+        ['C16_next_token_lossless', 'C16_stream_is_a_segmentation', 'C16_finitely_many_tokens', 'C16_lexical_error_rejects', 'C16_peek_is_next', 'C16_eof_forever', 'C16_backup_undoes_next', 'C16_lexer_positions_are_aligned', 'C16_backup_returns_the_rune_of_a_valid_step'],
+        [('lex', 8000), ('corpus', 0), ('scale-layout', 0), ('scale-values', 0), ('pairs', 0)],
+        [('lex', 150000), ('corpus', 0), ('scale-layout', 0), ('scale-values', 0), ('pairs', 0)],
         LEX + ['parse'],
-        'full: lossless segmentation, termination, error stops, error rejects, Peek = next read in every reachable state, EOF forever after the end or an error, all for every rune classification. The Lexer-object model (lstate/lnext/lpeek) is tied to lex.go by Next/Peek scripts; backup() via DecodeLastRune is modelled as undoing the last next, not verified.',
+        'full: lossless segmentation, termination, error stops, error rejects, Peek = next read in every reachable state, EOF forever after the end or an error, all for every rune classification. The Lexer-object model (lstate/lnext/lpeek) is tied to lex.go by Next/Peek scripts. The model has no backup(): it does not consume what it peeks at; that next(); backup() of the implementation returns to the same position is proved against a model of utf8.DecodeLastRuneInString (as the Go source has it) for every input, valid UTF-8 or not, at every position the forward decoder reaches from the start.',
         'byte strings over an alphabet with multi-byte runes, invalid UTF-8, NUL, every delimiter, with Next/Peek scripts; non-trivial = stream reached EOF or an error',
         '', []),
 }
